@@ -47,14 +47,17 @@ import (
 
 // Config is the generated chain configuration (parameters a governance could have set).
 type Config struct {
-	TakerFee       string
-	OsmoSplit      [3]string // staking, community pool, burn
-	NonOsmoSplit   [3]string
-	MintEpoch      string
-	DistrEpoch     string
-	DenomFee       bool
-	CommunityDenom string
-	Uptimes        int
+	TakerFee     string
+	OsmoSplit    [3]string // staking, community pool, burn
+	NonOsmoSplit [3]string
+	MintEpoch    string
+	// MintReductionPeriod > 0: the emission is multiplied by 2/3 every so many mint epochs (the default, 156 epochs, is
+	// never reached in a generated history), so exports are also taken from chains whose provisions have been reduced
+	MintReductionPeriod int
+	DistrEpoch          string
+	DenomFee            bool
+	CommunityDenom      string
+	Uptimes             int
 	// BootGauges: number of paying epochs of three lock gauges created at genesis with one and the same start time (0 = not
 	// created): gauges that share a start time share one reference list, whose order changes when one of them finishes
 	BootGauges [3]int
@@ -68,16 +71,17 @@ var splits = [][3]string{{"1", "0", "0"}, {"0.5", "0.3", "0.2"}, {"0.3", "0.3", 
 
 func GenConfig(rt *rapid.T) Config {
 	return Config{
-		TakerFee:       rapid.SampledFrom([]string{"0", "0.001", "0.0025", "0.01"}).Draw(rt, "takerFee"),
-		OsmoSplit:      rapid.SampledFrom(splits).Draw(rt, "osmoSplit"),
-		NonOsmoSplit:   rapid.SampledFrom(splits).Draw(rt, "nonOsmoSplit"),
-		MintEpoch:      rapid.SampledFrom([]string{"day", "week"}).Draw(rt, "mintEpoch"),
-		DistrEpoch:     rapid.SampledFrom([]string{"day", "week"}).Draw(rt, "distrEpoch"),
-		DenomFee:       rapid.Bool().Draw(rt, "denomFee"),
-		CommunityDenom: rapid.SampledFrom([]string{"", "usdc", "uosmo"}).Draw(rt, "communityDenom"),
-		Uptimes:        rapid.IntRange(1, 3).Draw(rt, "uptimes"),
-		Alloyed:        rapid.IntRange(0, 2).Draw(rt, "alloyedPool") == 0,
-		BootGauges:     rapid.SampledFrom([][3]int{{0, 0, 0}, {1, 3, 3}, {3, 1, 3}, {1, 1, 3}, {2, 1, 2}, {1, 2, 3}, {3, 3, 3}}).Draw(rt, "bootGauges"),
+		TakerFee:            rapid.SampledFrom([]string{"0", "0.001", "0.0025", "0.01"}).Draw(rt, "takerFee"),
+		OsmoSplit:           rapid.SampledFrom(splits).Draw(rt, "osmoSplit"),
+		NonOsmoSplit:        rapid.SampledFrom(splits).Draw(rt, "nonOsmoSplit"),
+		MintEpoch:           rapid.SampledFrom([]string{"day", "week"}).Draw(rt, "mintEpoch"),
+		MintReductionPeriod: rapid.SampledFrom([]int{0, 0, 1, 2, 3}).Draw(rt, "mintReductionPeriod"),
+		DistrEpoch:          rapid.SampledFrom([]string{"day", "week"}).Draw(rt, "distrEpoch"),
+		DenomFee:            rapid.Bool().Draw(rt, "denomFee"),
+		CommunityDenom:      rapid.SampledFrom([]string{"", "usdc", "uosmo"}).Draw(rt, "communityDenom"),
+		Uptimes:             rapid.IntRange(1, 3).Draw(rt, "uptimes"),
+		Alloyed:             rapid.IntRange(0, 2).Draw(rt, "alloyedPool") == 0,
+		BootGauges:          rapid.SampledFrom([][3]int{{0, 0, 0}, {1, 3, 3}, {3, 1, 3}, {1, 1, 3}, {2, 1, 2}, {1, 2, 3}, {3, 3, 3}}).Draw(rt, "bootGauges"),
 	}
 }
 
@@ -139,6 +143,10 @@ func Bootstrap(cfg Config) func(n *Node, ctx sdk.Context) {
 		a.IncentivesKeeper.SetParams(ctx, ip)
 		mp := a.MintKeeper.GetParams(ctx)
 		mp.EpochIdentifier = cfg.MintEpoch
+		if cfg.MintReductionPeriod > 0 {
+			mp.ReductionPeriodInEpochs = int64(cfg.MintReductionPeriod)
+			mp.ReductionFactor = osmomath.MustNewDecFromStr("0.666666666666666666")
+		}
 		a.MintKeeper.SetParams(ctx, mp)
 		if cfg.DenomFee {
 			tp := a.TokenFactoryKeeper.GetParams(ctx)
